@@ -328,9 +328,22 @@ impl Runtime {
         tokio::spawn(async move {
             #[cfg(acts_verif)]
             let _verif_unit = _verif_unit;
-            let _ = scher
-                .do_action(&action)
-                .map_err(|err| error!("scher::return_to_act {}", err.to_string()));
+            if let Err(err) = scher.do_action(&action) {
+                error!("scher::return_to_act {}", err.to_string());
+                // the return was refused (e.g. the child does not supply an output the calling
+                // act declares): fail the calling act instead of leaving it open for ever
+                if let Some(task) = scher
+                    .proc(&action.pid)
+                    .and_then(|proc| proc.task(&action.tid))
+                {
+                    if !task.state().is_completed() {
+                        let ctx = task.create_context();
+                        task.set_err(&err.into());
+                        let _ = ctx.emit_error();
+                        task.proc().persist();
+                    }
+                }
+            }
         });
     }
 }
